@@ -1677,7 +1677,19 @@ class Engine:
 
     def st_Try(self, s, ctx):
         if s.finalbody:
-            raise Unsupported('try/finally')
+            inner = ast.Try(body=s.body, handlers=s.handlers, orelse=s.orelse, finalbody=[])
+            inner = ast.copy_location(inner, s)
+            src = self._try_core(inner, ctx) if (s.handlers or s.orelse) else self.exec_block(s.body, ctx)
+            for o in src:
+                for f in self.exec_block(s.finalbody, o.ctx):
+                    if f.kind == 'next':
+                        yield Out(o.kind, f.ctx, o.val)      # the pending outcome resumes after the finally block
+                    else:
+                        yield f                               # return/raise/break inside finally overrides it
+            return
+        yield from self._try_core(s, ctx)
+
+    def _try_core(self, s, ctx):
         for o in self.exec_block(s.body, ctx):
             if o.kind == 'raise':
                 handled = False
